@@ -28,6 +28,7 @@ pub fn drive_c20(h: &mut Hist) -> RunResult2 {
     let mut dropped_mgr = false;
     let mut pairs_requested: Vec<Pair> = Vec::new();
     let mut steps = 0u64;
+    let mut seen_handouts = 0usize;
 
     loop {
         steps += 1;
@@ -131,6 +132,7 @@ pub fn drive_c20(h: &mut Hist) -> RunResult2 {
         if let Some((id, name, msg)) = sim.take_panic() {
             return Err(("panic".into(), format!("actor {name}#{id}: {msg}")));
         }
+        check_outcomes(h, &mut seen_handouts, removal_events == 0 && !dropped_mgr)?;
     }
 
     // ---- wind down: every lookup completes, everything runs to quiescence (pre-emption stays on)
@@ -155,6 +157,7 @@ pub fn drive_c20(h: &mut Hist) -> RunResult2 {
     if !sim.runnable().is_empty() {
         return Err(("harness/step-budget".into(), "actors still runnable after the wind-down budget".into()));
     }
+    check_outcomes(h, &mut seen_handouts, removal_events == 0 && !dropped_mgr)?;
     check_quiescent(h, &callers)?;
     sim.probe("oracle-released");
 
@@ -247,6 +250,55 @@ fn check_quiescent(h: &mut Hist, callers: &[Caller]) -> RunResult2 {
             ));
         } else {
             sim.probe("waiter-while-lookup-outstanding");
+        }
+    }
+    Ok(())
+}
+
+/// A released caller's outcome is consistent with the lookups that finished: while nothing was ever removed, if
+/// every lookup of the pair that finished so far succeeded with a usable path, no waiting caller may be released
+/// with an error.
+fn check_outcomes(h: &mut Hist, seen: &mut usize, nothing_removed: bool) -> RunResult2 {
+    let hs: Vec<Handout> = {
+        let g = h.handouts.lock().unwrap();
+        g[*seen..].to_vec()
+    };
+    *seen += hs.len();
+    for x in hs {
+        let desc = match &x.res {
+            HandRes::Path(p) => format!("path {}", h.route_name(p)),
+            HandRes::None => "none".into(),
+            HandRes::Err(e) => format!("err({e})"),
+        };
+        h.sim.log(format!("released c{} {} {desc}", x.caller, x.kind));
+        if !nothing_removed || x.kind != "send" || x.pair.0 == x.pair.1 {
+            continue;
+        }
+        if let HandRes::Err(e) = &x.res {
+            let now = h.now_secs();
+            // (a path inside the near-expiry threshold is not selected by design)
+            let thr = h.cfg.min_expiry_threshold.as_secs() as u32;
+            let (finished, all_ok) = {
+                let st = h.fetch.lock().unwrap();
+                let done: Vec<&Req> = st.reqs.iter().filter(|r| r.pair == x.pair && r.done_ns.is_some()).collect();
+                let ok = done.iter().all(|r| match &r.outcome {
+                    Some(Outcome::Ok(v)) => {
+                        // every accepted path of the result is selectable (which of them the manager keeps is its
+                        // business: ranking ignores remaining lifetime)
+                        let acc: Vec<&sciparse::path::ScionPath> = v.iter().filter(|p| h.policies.accepts(p)).collect();
+                        !acc.is_empty() && acc.iter().all(|p| p.expiration().unwrap_or(0) > now + thr + 1)
+                    }
+                    _ => false,
+                });
+                (done.len(), ok)
+            };
+            h.sim.probe("oracle-outcome");
+            if all_ok {
+                return Err((
+                    "C20/released-with-error-although-lookup-succeeded".into(),
+                    format!("caller c{} was released with '{e}' although every lookup for {}->{} that finished so far ({finished}) succeeded with a usable path and nothing was ever removed", x.caller, x.pair.0, x.pair.1),
+                ));
+            }
         }
     }
     Ok(())
